@@ -272,8 +272,17 @@ def run_server_segmentations(o, ctx, t, r):
     streams.append((4096, b"GET /\x01 HTTP/1.1\r\n\r\n", b"", "R400:1:e"))
     streams.append((4096, b"CONNECT example.com:443 HTTP/1.1\r\nHost: example.com\r\n\r\n", b"", "R404:0:e"))
     streams.append((4096, b"GET http://example.com/p/1/2?q=1 HTTP/1.1\r\n\r\n", b"", "R200:0:" + hx(b"1,2")))
-    for _ in range(2 if t == "quick" else 40):
-        streams.append((4096, G.gen_wf_request(r)[:3000], b"", None))
+    # random well-formed heads: exactly one request and nothing after it (bytes that follow a head in the same segment are not
+    # a pipelined request for this server: they are dropped with the head buffer — by design, see DESIGN.md §7), no body
+    k = 0
+    while k < (2 if t == "quick" else 40):
+        w = G.gen_wf_request(r)
+        he = w.find(b"\r\n\r\n")
+        low = w[:he + 4].lower()
+        if he < 0 or he > 3000 or b"content-length" in low or b"transfer-encoding" in low:
+            continue
+        streams.append((4096, w[:he + 4], b"", None))
+        k += 1
     lines, groups = [], []
     for mx, head, body, exp in streams:
         st = head + body
